@@ -126,6 +126,17 @@ class PROP(Prop):
                 if what == "noise":
                     cs.append(Case(cligen.cli_line(proto, 1, [cligen.call_op(("RHR", 1, 1), R=ev)]),
                                    {"k": "quiet", "len": n * len(chunk), "what": what, "model_line": cligen.cli_line(proto, 1, [cligen.call_op(("RHR", 1, 1), R=expanded)])}, prof))
+        # one TCP client object through more than 65 536 calls (answered, failing and refused ones mixed): no call ever panics or hangs
+        slave, ops = rng.randrange(1, 248), []
+        for j in range(65536 + 40):
+            r = j % 211
+            if r == 13:
+                ops.append(cligen.call_op(("WMR", 0, [1] * 124)))
+            elif r == 57:
+                ops.append(cligen.call_op(("RHR", j & 0xFFFF, 1), R="e:Other"))
+            else:
+                ops.append(cligen.call_op(("RHR", j & 0xFFFF, 1), R="d" + cligen.frame("tcp", j & 0xFFFF, slave, bytes([3, 2, 0, 7])).hex()))
+        cs.append(Case(cligen.cli_line("tcp", slave, ops), {"k": "longlived", "n": len(ops)}))
         return cs
 
     def project(self, case, s):
